@@ -1,0 +1,10 @@
+//go:build verif
+
+package client
+
+// VerifRegistered returns the number of registered response handlers.
+func VerifRegistered(rm *RpcMultiplexer) int {
+	rm.mutex.Lock()
+	defer rm.mutex.Unlock()
+	return len(rm.handlers)
+}
